@@ -15,6 +15,7 @@ inductive JKind where
 
 inductive MKind where
   | lea | mov | addi8 | movi32 | cmpi16 | ldeax | steax | ldrax
+  | fsmov | gsldeax | fsaddi8     -- the same with an FS / GS segment override: mov ecx,fs:[..] / mov eax,gs:[..] / add dword fs:[..],0x12
   deriving DecidableEq, Repr, Inhabited
 
 inductive AKind where
@@ -39,6 +40,9 @@ def MKind.shape (arch : Arch) : MKind → MShape
   | .ldeax  => { lead := [0x8B#8, 0x05#8], imm := [] }                                   -- mov eax,[L+d]
   | .steax  => { lead := [0x89#8, 0x05#8], imm := [] }                                   -- mov [L+d],eax
   | .ldrax  => { lead := (if arch = .x64 then [0x48#8] else []) ++ [0x8B#8, 0x05#8], imm := [] }   -- mov rax,[L+d] (eax in 32-bit mode)
+  | .fsmov   => { lead := [0x64#8, 0x8B#8, 0x0D#8], imm := [] }
+  | .gsldeax => { lead := [0x65#8, 0x8B#8, 0x05#8], imm := [] }
+  | .fsaddi8 => { lead := [0x64#8, 0x83#8, 0x05#8], imm := [0x12#8] }
 
 /-- the same menu with an absolute memory operand: lea zax,[A] / mov ecx,[A] / add dword [A],0x12 / mov dword [A],0x11223344 / cmp word [A],0x1234 -/
 def MKind.ashape (arch : Arch) : MKind → AShape
@@ -51,6 +55,9 @@ def MKind.ashape (arch : Arch) : MKind → AShape
   | .steax  => { pp := [], rex := none, opc := [0x89#8], opReg := 0, imm := [], isLea := false, moffs := some (0xA3#8, 4) }
   | .ldrax  => { pp := [], rex := if arch = .x64 then some 0x48#8 else none, opc := [0x8B#8], opReg := 0, imm := [], isLea := false,
                  moffs := some (0xA1#8, if arch = .x64 then 8 else 4) }
+  | .fsmov   => { pp := [], rex := none, opc := [0x8B#8], opReg := 1, imm := [], isLea := false, seg := some 0x64#8 }
+  | .gsldeax => { pp := [], rex := none, opc := [0x8B#8], opReg := 0, imm := [], isLea := false, moffs := some (0xA1#8, 4), seg := some 0x65#8 }
+  | .fsaddi8 => { pp := [], rex := none, opc := [0x83#8], opReg := 0, imm := [0x12#8], isLea := false, seg := some 0x64#8 }
 
 /-- menu: b / bl / b.eq / cbz x1 / tbz w2,#3 / adr x3 / adrp x4 / ldr x5,[L,#a] (opcode word with a zero field) -/
 def AKind.opcode : AKind → BitVec 32
